@@ -102,6 +102,9 @@ var TSABehaviours = []string{
 	"token-content-type-data", "signed-attributes-missing", "message-digest-wrong", "signature-broken", "signing-cert-hash-wrong",
 	"tstinfo-version-2", "gentime-not-utc", "tsa-chain-expired", "tsa-chain-not-yet-valid",
 	"garbage", "truncated", "empty-body", "wrong-http-content-type", "http-500", "transport-error", "timeout", "granted-without-token",
+	// never answers; the exchange ends when the request's context does (the
+	// caller must attach one)
+	"hangs-until-context-ends",
 }
 
 // TSAServed is what the authority says about one served reply.
@@ -455,6 +458,9 @@ func (t *TSA) Handler() netsim.Handler {
 		case "timeout":
 			record()
 			return netsim.Reply{Err: netsim.ErrTimeout, Class: t.Behaviour}
+		case "hangs-until-context-ends":
+			record()
+			return netsim.Reply{Hang: true, Class: t.Behaviour}
 		case "garbage":
 			record()
 			return netsim.Reply{Body: []byte("this is not DER"), Header: hdr, Class: t.Behaviour}
